@@ -242,17 +242,17 @@ def manifestPathOf (mans : List (MPath × Bytes)) (want : MPath) : MPath :=
 def manGet (mans : List (MPath × Bytes)) (p : MPath) : FileSt :=
   (mans.find? (fun e => e.1 == p)).map (·.2)
 
-def manInsert (p : MPath) (v : Bytes) : List (MPath × Bytes) → List (MPath × Bytes)
+/-- insert a NEW path at its place in glob order -/
+def manInsertNew (p : MPath) (v : Bytes) : List (MPath × Bytes) → List (MPath × Bytes)
   | [] => [(p, v)]
-  | e :: es =>
-    if e.1 == p then (p, v) :: es
-    else if pathLt p e.1 then (p, v) :: e :: es
-    else e :: manInsert p v es
+  | e :: es => if pathLt p e.1 then (p, v) :: e :: es else e :: manInsertNew p v es
 
 def manSet (mans : List (MPath × Bytes)) (p : MPath) (v : FileSt) : List (MPath × Bytes) :=
   match v with
   | none => mans.filter (fun e => !(e.1 == p))
-  | some b => manInsert p b mans
+  | some b =>
+    if mans.any (fun e => e.1 == p) then mans.map (fun e => if e.1 == p then (p, b) else e)
+    else manInsertNew p b mans
 
 /-! ## operations -/
 
@@ -282,7 +282,7 @@ def importB (hash : Bytes → Digest) (k : Disk) (size : Nat) (s : Script) : Dis
   | (none, r) => (k, .res r)
 
 /-- `Get(d)`: stat; a zero-length file counts as absent -/
-def get (k : Disk) (d : Digest) : Out :=
+def getB (k : Disk) (d : Digest) : Out :=
   match k.blob d with
   | none => .res .notExist
   | some f => if f.length = 0 then .res .notExist else .entry f.length
@@ -397,7 +397,7 @@ inductive Op
 def stepOp (hash : Bytes → Digest) (fixed : Bool) (k : Disk) : Op → Disk × Out
   | .put d size s => let r := put hash k d size s; (r.1, .res r.2)
   | .importB size s => importB hash k size s
-  | .get d => (k, get k d)
+  | .get d => (k, getB k d)
   | .link name d => let r := link hash fixed k name d; (r.1, .res r.2)
   | .unlink name => unlink k name
   | .resolve name => resolve hash k name
